@@ -23,7 +23,7 @@ ALPHA = [b"0", b"1", b"7", b"8", b"x", b"r", b"N", b"M", b"/", b"_", b"\\", b"\"
          b".", b"-", b"e", b"^", b"\n", b"u", b"o", b"f"]
 
 CORE_NUM = re.compile(rb"^[+-]?(0|[1-9][0-9]*)(N|M|(\.[0-9]*)?([eE][+-]?[0-9]+)?M?)$")
-TOKEN_SPLIT = re.compile(rb"[\s,()\[\]{}\";]+")
+TOKEN_SPLIT = re.compile(rb"[\s\x1c-\x1f,()\[\]{}\";#]+")  # EDN blanks include 0x1C..0x1F
 
 
 EXT_ESCAPE = re.compile(rb"\\[fbu0-7]")
